@@ -86,7 +86,8 @@ dz_enrichz(struct dt_dt_s d, zif_t zone)
 	if (UNLIKELY(zone == NULL)) {
 		goto out;
 	} else if (d.typ == DT_SEXY) {
-		goto out;
+		/* a count of seconds, it's the civil date/time we print */
+		x = dt_dtconv((dt_dttyp_t)DT_YMD, d);
 	} else if (dt_sandwich_only_d_p(d)) {
 		static struct dt_t_s mid = {.hms = {.h = 24}};
 		dt_make_sandwich(&x, d.d.typ, DT_HMS);
